@@ -164,48 +164,87 @@ inductive HVal where
  | none_
 deriving Repr
 
-/-- `_reinit_from_xobject`: every nested (non-reference) hybrid field gets a fresh dressed instance at its inline location,
-recursively; pure-Python attributes of the previously cached child are preserved; Ref fields are not dressed here -/
+/-- one field of `_reinit_from_xobject` (`rec` re-initialises a freshly dressed part): a nested (non-reference) hybrid field gets
+a fresh dressed instance at its inline location; pure-Python attributes and cached referents of the previously cached child are
+taken over; a cached referent of a Ref field is kept only if the field still refers to it -/
+def reinitStep (u : Universe) (rec : St → Nat → St) (i : Nat) (s : St) (fk : String × FKind) : St :=
+  match fk.2 with
+  | .nested c' =>
+    let f := fk.1
+    let x := s.inst i
+    let old : Option Inst := (x.dressed.lookup f).map s.inst
+    let oldpy := match old with
+      | some o => o.py
+      | none => []
+    -- "preserve pure python attributes" copies every attribute the fresh object lacks: also the cached referents of
+    -- the old object's REFERENCE fields (the fresh object has dressed its nested parts only)
+    let oldRefs : List (String × Nat) := match old with
+      | some o => o.dressed.filter fun e => match fkind (clsOf u c') e.1 with
+          | some (.ref _) => true
+          | _ => false
+      | none => []
+    let (j, s1) := s.addInst { cls := c', loc := x.loc.sub f, dressed := [], movable := true, py := oldpy }
+    let s2 := rec s1 j
+    -- `setattr(self, pyname, vv)`: goes through `__set__` with a dressed value at the same memory area: no copy, a new
+    -- dressed object that takes over vv's attributes, is not movable, and is re-initialised from its xobject (which
+    -- validates the reference caches it took over)
+    let y := s2.inst j
+    let (jn, s3) := s2.addInst { cls := c', loc := x.loc.sub f, dressed := y.dressed ++ oldRefs, movable := false, py := y.py }
+    let s3 := rec s3 jn
+    let x2 := s3.inst i
+    s3.setInst i { x2 with dressed := (x2.dressed.filter (·.1 != f)) ++ [(f, jn)] }
+  | .ref _ =>
+    let f := fk.1
+    -- a cached referent is kept only if the field still refers to it
+    let x := s.inst i
+    match x.dressed.lookup f with
+    | some j =>
+      let keep := match xread s.heap (x.loc.sub f) with
+        | some (.ref _ (some t)) => t == (s.inst j).loc
+        | _ => false
+      if keep then s else s.setInst i { x with dressed := x.dressed.filter (·.1 != f) }
+    | none => s
+  | .num => s
+
+/-- `_reinit_from_xobject`, recursively over the nested parts (fuel bounds the nesting depth) -/
 def reinit (u : Universe) : Nat → St → Nat → St
  | 0, s, _ => s
- | fuel + 1, s, i =>
-    let x := s.inst i
-    (clsOf u x.cls).fields.foldl (fun s (f, k) =>
-      match k with
-      | .nested c' =>
-        let x := s.inst i
-        let old : Option Inst := (x.dressed.lookup f).map s.inst
-        let oldpy := match old with
-          | some o => o.py
-          | none => []
-        -- "preserve pure python attributes" copies every attribute the fresh object lacks: also the cached referents of
-        -- the old object's REFERENCE fields (the fresh object has dressed its nested parts only)
-        let oldRefs : List (String × Nat) := match old with
-          | some o => o.dressed.filter fun e => match fkind (clsOf u c') e.1 with
-              | some (.ref _) => true
-              | _ => false
-          | none => []
-        let (j, s1) := s.addInst { cls := c', loc := x.loc.sub f, dressed := [], movable := true, py := oldpy }
-        let s2 := reinit u fuel s1 j
-        -- `setattr(self, pyname, vv)`: goes through `__set__` with a dressed value at the same memory area: no copy, a new
-        -- dressed object that takes over vv's attributes, is not movable, and is re-initialised from its xobject (which
-        -- validates the reference caches it took over)
-        let y := s2.inst j
-        let (jn, s3) := s2.addInst { cls := c', loc := x.loc.sub f, dressed := y.dressed ++ oldRefs, movable := false, py := y.py }
-        let s3 := reinit u fuel s3 jn
-        let x2 := s3.inst i
-        s3.setInst i { x2 with dressed := (x2.dressed.filter (·.1 != f)) ++ [(f, jn)] }
-      | .ref _ =>
-        -- a cached referent is kept only if the field still refers to it
-        let x := s.inst i
-        match x.dressed.lookup f with
-        | some j =>
-          let keep := match xread s.heap (x.loc.sub f) with
-            | some (.ref _ (some t)) => t == (s.inst j).loc
-            | _ => false
-          if keep then s else s.setInst i { x with dressed := x.dressed.filter (·.1 != f) }
-        | none => s
-      | .num => s) s
+ | fuel + 1, s, i => (clsOf u (s.inst i).cls).fields.foldl (reinitStep u (reinit u fuel) i) s
+
+/-- `__set__` of a NESTED field with a dressed value: the data is copied into the in-line slot, a new dressed object takes over
+the value's attributes, is not movable, and is re-initialised from its xobject -/
+def hsetNested (u : Universe) (s : St) (i : Nat) (f : String) (c' : Nat) (j : Nat) : St :=
+  let x := s.inst i
+  let y := s.inst j
+  -- copy the xobject data into the inline slot unless it is the same memory area
+  let h1 := if y.loc == x.loc.sub f then s.heap else
+    match xread s.heap y.loc with
+    | some yv => let (yv', h') := copyVal 64 s.heap y.loc.buf x.loc.buf yv; xwrite h' (x.loc.sub f) yv'
+    | none => s.heap
+  -- a dressed version of the copy: same class, python data of the value, not movable
+  let (jn, s1) := ({ s with heap := h1 } : St).addInst { cls := c', loc := x.loc.sub f, dressed := y.dressed, movable := false, py := y.py }
+  -- the dressed parts taken over from the value still live in the value: dress the parts of the copy instead
+  let s1 := reinit u 8 s1 jn
+  let x1 := s1.inst i
+  s1.setInst i { x1 with dressed := (x1.dressed.filter (·.1 != f)) ++ [(f, jn)] }
+
+/-- `__set__` of a REFERENCE field with a dressed value: refused across buffers before anything is touched; otherwise the slot
+refers to the value's object, which is cached and can no longer be moved -/
+def hsetRef (u : Universe) (s : St) (i : Nat) (f : String) (c' : Nat) (j : Nat) : St × Option HErr :=
+  let x := s.inst i
+  let y := s.inst j
+  let cur := xread s.heap (x.loc.sub f)
+  let same := match cur with
+    | some (.ref _ (some t)) => y.loc.buf == x.loc.buf && t == y.loc
+    | _ => false
+  if y.loc.buf != x.loc.buf then (s, some .memory)
+  else
+    let h1 : Heap := if same then s.heap else xwrite s.heap (x.loc.sub f) (.ref c' (some y.loc))
+    let s1 : St := { s with heap := h1 }
+    let x1 := s1.inst i
+    let s2 := s1.setInst i { x1 with dressed := (x1.dressed.filter (·.1 != f)) ++ [(f, j)] }
+    let y2 := s2.inst j
+    (s2.setInst j { y2 with movable := false }, none)
 
 /-- `_FieldOfDressed.__set__` -/
 def hset (u : Universe) (s : St) (i : Nat) (py : String) (v : HVal) : St × Option HErr :=
@@ -215,35 +254,8 @@ def hset (u : Universe) (s : St) (i : Nat) (py : String) (v : HVal) : St × Opti
   match fkind c f, v with
   | none, _ => (s, some .name)
   | some .num, .num n => ({ s with heap := xwrite s.heap (x.loc.sub f) (.num n) }, none)
-  | some (.nested c'), .dressed j =>
-    let y := s.inst j
-    -- copy the xobject data into the inline slot unless it is the same memory area
-    let h1 := if y.loc == x.loc.sub f then s.heap else
-      match xread s.heap y.loc with
-      | some yv => let (yv', h') := copyVal 64 s.heap y.loc.buf x.loc.buf yv; xwrite h' (x.loc.sub f) yv'
-      | none => s.heap
-    -- a dressed version of the copy: same class, python data of the value, not movable
-    let (jn, s1) := ({ s with heap := h1 } : St).addInst { cls := c', loc := x.loc.sub f, dressed := y.dressed, movable := false, py := y.py }
-    -- the dressed parts taken over from the value still live in the value: dress the parts of the copy instead
-    let s1 := reinit u 8 s1 jn
-    let x1 := s1.inst i
-    (s1.setInst i { x1 with dressed := (x1.dressed.filter (·.1 != f)) ++ [(f, jn)] }, none)
-  | some (.ref c'), .dressed j =>
-    let y := s.inst j
-    let cur := xread s.heap (x.loc.sub f)
-    let same := match cur with
-      | some (.ref _ (some t)) => y.loc.buf == x.loc.buf && t == y.loc
-      | _ => false
-    -- setattr(xobject, name, value._xobject) unless already referenced
-    -- refused across buffers, before anything is touched
-    if y.loc.buf != x.loc.buf then (s, some .memory)
-    else
-      let h1 : Heap := if same then s.heap else xwrite s.heap (x.loc.sub f) (.ref c' (some y.loc))
-      let s1 : St := { s with heap := h1 }
-      let x1 := s1.inst i
-      let s2 := s1.setInst i { x1 with dressed := (x1.dressed.filter (·.1 != f)) ++ [(f, j)] }
-      let y2 := s2.inst j
-      (s2.setInst j { y2 with movable := false }, none)
+  | some (.nested c'), .dressed j => (hsetNested u s i f c' j, none)
+  | some (.ref c'), .dressed j => hsetRef u s i f c' j
   | some (.ref c'), .none_ =>
     let x1 := { x with dressed := x.dressed.filter (·.1 != f) }
     (({ s with heap := xwrite s.heap (x.loc.sub f) (.ref c' none) } : St).setInst i x1, none)
@@ -269,6 +281,85 @@ def hmove (u : Universe) (s : St) (i : Nat) (dst : Nat) : St × Option HErr :=
       let s1 := ({ s with heap := h' } : St).setInst i { x with loc := l }
       (reinit u 8 s1 i, none)
     | none => (s, some .value)
+
+def defaultVal (u : Universe) : Nat → Nat → XV
+ | 0, c => .struct c []
+ | fuel + 1, c => .struct c ((clsOf u c).fields.map fun (f, k) =>
+    match k with
+    | .num => (f, .num 0)
+    | .nested c' => (f, defaultVal u fuel c')
+    | .ref c' => (f, .ref c' none))
+
+/-- the xobject of a constructor call, `Struct(**xo_kwargs)` in the given buffer: plain numbers, copies of the data of dressed
+values for nested fields, references to dressed values of the same buffer (copies of them otherwise), defaults elsewhere -/
+def hnewHeap (u : Universe) (s : St) (cls buf : Nat) (kw : List (String × HVal)) : Loc × Heap :=
+  let c := clsOf u cls
+  let kwxo := kw.map fun (py, v) => (xoName c py, v)
+  let (fields, h1) := c.fields.foldl (fun (acc : List (String × XV) × Heap) (f, k) =>
+      match k, (kwxo.lookup f : Option HVal) with
+      | .num, some (HVal.num n) => (acc.1 ++ [(f, .num n)], acc.2)
+      | .num, _ => (acc.1 ++ [(f, .num 0)], acc.2)
+      | .nested c', some (HVal.dressed j) =>
+        (match xread acc.2 (s.inst j).loc with
+         | some v => let (v', h') := copyVal 64 acc.2 (s.inst j).loc.buf buf v; (acc.1 ++ [(f, v')], h')
+         | none => (acc.1 ++ [(f, defaultVal u 8 c')], acc.2))
+      | .nested c', _ => (acc.1 ++ [(f, defaultVal u 8 c')], acc.2)
+      | .ref c', some (HVal.dressed j) =>
+        let y := s.inst j
+        if y.loc.buf == buf then (acc.1 ++ [(f, .ref c' (some y.loc))], acc.2)
+        else
+          (match xcopy acc.2 y.loc buf with
+           | some (l, h') => (acc.1 ++ [(f, .ref c' (some l))], h')
+           | none => (acc.1 ++ [(f, .ref c' none)], acc.2))
+      | .ref c', _ => (acc.1 ++ [(f, .ref c' none)], acc.2)) ([], s.heap)
+  alloc h1 buf (.struct cls fields)
+
+/-- `setattr(self, kk, vv)` for one dressed keyword argument (nothing after the first refusal) -/
+def hnewSet (u : Universe) (i : Nat) (acc : St × Option HErr) (e : String × HVal) : St × Option HErr :=
+  match acc.2, e.2 with
+  | some _, _ => acc
+  | none, .dressed _ => hset u acc.1 i e.1 e.2
+  | none, _ => acc
+
+/-- `HybridClass.__init__` / `xoinitialize` with keyword arguments -/
+def hnew (u : Universe) (s : St) (cls buf : Nat) (kw : List (String × HVal)) : St × Except HErr Nat :=
+  let lh := hnewHeap u s cls buf kw
+  let is1 := ({ s with heap := lh.2 } : St).addInst { cls, loc := lh.1, dressed := [], movable := true, py := [] }
+  -- setattr(self, kk, vv) for the dressed inputs
+  let r := kw.foldl (hnewSet u is1.1) (is1.2, none)
+  match r.2 with
+  | some e => (r.1, .error e)
+  | none => (reinit u 8 r.1 is1.1, .ok is1.1)
+
+/-! ### histories -/
+
+/-- an operation of a history on hybrid objects; instance arguments are indices of existing instances -/
+inductive Op where
+ | new (cls buf : Nat) (kw : List (String × HVal))
+ | get (i : Nat) (py : String)
+ | set (i : Nat) (py : String) (v : HVal)
+ | copy (i dst : Nat)
+ | move (i dst : Nat)
+ | pyset (i : Nat) (k : String) (v : Int)
+
+def HVal.ok (n : Nat) : HVal → Bool
+ | .dressed j => j < n
+ | _ => true
+
+/-- one operation (operations naming an instance that does not exist do nothing) -/
+def step (u : Universe) (s : St) : Op → St
+ | .new cls buf kw => if kw.all (fun e => e.2.ok s.insts.length) then (hnew u s cls buf kw).1 else s
+ | .get i py => if i < s.insts.length then (hget u s i py).1 else s
+ | .set i py v => if i < s.insts.length && v.ok s.insts.length then (hset u s i py v).1 else s
+ | .copy i dst => if i < s.insts.length then (match hcopy u s i dst with | some (_, s') => s' | none => s) else s
+ | .move i dst => if i < s.insts.length then (hmove u s i dst).1 else s
+ | .pyset i k v =>
+    if i < s.insts.length then
+      let x := s.inst i
+      s.setInst i { x with py := (x.py.filter (·.1 != k)) ++ [(k, v)] }
+    else s
+
+def initSt : St := { heap := { roots := [], next := 0, ctxOf := fun _ => 0 }, insts := [] }
 
 /-- the invariant of C18: every cached dressed child is the object the buffer data says is there -/
 def Mirror (u : Universe) (s : St) : Prop :=
